@@ -79,8 +79,15 @@ func below(p, anc string) bool { return p == anc || strings.HasPrefix(p, anc+"/"
 
 func loc(d gen.Deviation) string { return d.TargetMod + " " + d.Target }
 
+func stripped(c gen.C08Case) bool { return len(c.DevTexts) > 0 && len(c.StrippedDevTexts) == len(c.DevTexts) }
+
 func cases(c gen.C08Case) (with, without rescorr.Case) {
 	without = rescorr.Case{Names: c.BaseNames, Texts: c.BaseTexts, IgnoreNotSupported: c.IgnoreNS}
+	if stripped(c) {
+		// the deviating modules define nodes of their own: "without" = without their deviation statements
+		without = rescorr.Case{Names: append(append([]string{}, c.BaseNames...), c.DevNames...),
+			Texts: append(append([]string{}, c.BaseTexts...), c.StrippedDevTexts...), IgnoreNotSupported: c.IgnoreNS}
+	}
 	wb := c.BaseTexts
 	if len(c.WithBaseTexts) == len(c.BaseTexts) {
 		wb = c.WithBaseTexts // deviations written inside a submodule of the base
@@ -536,7 +543,7 @@ func evaluate(items []gen.C08Case, f *lib.Flags, res *lib.Result, st *stats, ver
 		}
 		sort.Strings(wpaths)
 		for _, path := range wpaths {
-			if _, there := base[path]; there || devMod[with[path].mod] {
+			if _, there := base[path]; there || (devMod[with[path].mod] && !stripped(it)) {
 				continue
 			}
 			if p.implicit[path] {
